@@ -557,4 +557,58 @@ theorem sourceRestriction_names (checkRP : Bool) (names : List Str) :
     rw [sourceRestriction, ih]
     simp
 
+/-! ## clauses that are absent -/
+
+/-- The first token of `k` as `ScanIgnoreWhitespace` sees it; pushed back, the parser keeps standing before `k`. -/
+theorem peek_stand (s : PState) (k : Str) (stop : List Token) (t : Token) (hk : Follow k stop) (ht : t ∈ stop)
+    (hs : RT.Stand s k) :
+    ∃ lx s1, scanIW.run s = .ok (lx, s1) ∧ lx.tok ≠ t ∧ RT.Stand (unsc s1) k := by
+  obtain ⟨T, hT, hne⟩ := hk.starts ht
+  obtain ⟨lx, s1, h1, h2, h3, _⟩ := RT.scanIW_starts s k T hs hT
+  exact ⟨lx, s1, h1, by rw [h2]; exact hne, h3⟩
+
+theorem parseOrderBy_absent (s : PState) (k : Str) (hk : Follow k [.ORDER]) (hs : RT.Stand s k) :
+    ∃ s', parseOrderBy.run s = .ok ([], s') ∧ RT.Stand s' k := by
+  obtain ⟨lx, s1, h1, h2, h3⟩ := peek_stand s k _ .ORDER hk (by simp) hs
+  refine ⟨unsc s1, ?_, h3⟩
+  unfold parseOrderBy
+  rw [P.run_bind _ _ _ _ _ h1, P.run_ite, if_pos h2, P.run_bind _ _ _ _ _ (unscan_run s1)]
+  rfl
+
+theorem parseDimensions_absent (fuel : Nat) (s : PState) (k : Str) (hk : Follow k [.GROUP]) (hs : RT.Stand s k) :
+    ∃ s', (parseDimensions fuel).run s = .ok ([], s') ∧ RT.Stand s' k := by
+  obtain ⟨lx, s1, h1, h2, h3⟩ := peek_stand s k _ .GROUP hk (by simp) hs
+  refine ⟨unsc s1, ?_, h3⟩
+  unfold parseDimensions
+  rw [P.run_bind _ _ _ _ _ h1, P.run_ite, if_pos h2, P.run_bind _ _ _ _ _ (unscan_run s1)]
+  rfl
+
+theorem parseFill_absent (fuel : Nat) (s : PState) (k : Str) (hk : Follow k [.IDENT]) (hs : RT.Stand s k) :
+    ∃ s', (parseFill fuel).run s = .ok ((.null, .none), s') ∧ RT.Stand s' k := by
+  obtain ⟨lx, s1, h1, h2, h3⟩ := peek_stand s k _ .IDENT hk (by simp) hs
+  refine ⟨unsc s1, ?_, h3⟩
+  unfold parseFill
+  rw [P.run_bind _ _ _ _ _ h1, P.run_bind _ _ _ _ _ (unscan_run s1), P.run_bind _ _ _ _ _ (P.run_get _),
+    P.run_ite, if_pos (Or.inl h2)]
+  rfl
+
+theorem parseLocation_absent (fuel : Nat) (s : PState) (k : Str) (hk : Follow k [.IDENT]) (hs : RT.Stand s k) :
+    ∃ s', (parseLocation fuel).run s = .ok (none, s') ∧ RT.Stand s' k := by
+  obtain ⟨lx, s1, h1, h2, h3⟩ := peek_stand s k _ .IDENT hk (by simp) hs
+  refine ⟨unsc s1, ?_, h3⟩
+  unfold parseLocation
+  rw [P.run_bind _ _ _ _ _ h1, P.run_bind _ _ _ _ _ (unscan_run s1), P.run_bind _ _ _ _ _ (P.run_get _),
+    P.run_ite, if_pos (Or.inl h2)]
+  rfl
+
+theorem parseTarget_absent (s : PState) (k : Str) (hk : Follow k [.INTO]) (hs : RT.Stand s k) :
+    ∃ s', (parseTarget false).run s = .ok (none, s') ∧ RT.Stand s' k := by
+  obtain ⟨lx, s1, h1, h2, h3⟩ := peek_stand s k _ .INTO hk (by simp) hs
+  refine ⟨unsc s1, ?_, h3⟩
+  unfold parseTarget
+  rw [P.run_bind _ _ _ _ _ h1, P.run_ite, if_pos h2]
+  simp only [Bool.false_eq_true, if_false]
+  rw [P.run_bind _ _ _ _ _ (unscan_run s1)]
+  rfl
+
 end InfluxQL
